@@ -278,6 +278,26 @@ func Driver() int {
 		}
 		seen[v.Signature] = true
 		ok, out := confirmReplay(v.Replay, v.Signature)
+		if !ok {
+			// The fresh process may name the same defect through another oracle of the same
+			// property (the race detector reports a racing pair once per process, so inside a
+			// shard a later oracle can be the first to speak): still a violation shown by that
+			// replay file, unless what it shows is a listed known finding.
+			if i := strings.Index(out, "REPLAY-RESULT: reproduced signature="+prop+"/"); i >= 0 {
+				rest := out[i+len("REPLAY-RESULT: reproduced signature="):]
+				if j := strings.IndexAny(rest, " \n"); j > 0 {
+					sig2 := rest[:j]
+					known, _ := LoadKnown(knownPath())
+					if k, isKnown := known[sig2]; isKnown {
+						merged.KnownHits[sig2]++
+						merged.KnownWhat[sig2] = k.Finding
+						continue
+					}
+					v.Detail = fmt.Sprintf("%s\n  (in a fresh process the replay file reproduces as %s)", v.Detail, sig2)
+					ok = true
+				}
+			}
+		}
 		v.Confirmed = ok
 		if ok {
 			vlines = append(vlines, fmt.Sprintf("VIOLATION property=%s replay=%s", prop, v.Replay))
